@@ -184,8 +184,31 @@ def run_lines(binary, lines, extra_args=(), timeout=3600, max_crashes=200):
         res += out[:k]
         if k >= len(rest):
             break
+        rest = rest[k:]
+        # the process died somewhere at or after line k (its output is block-buffered, so the lines answered but not yet
+        # flushed are lost): find the operation that kills it by feeding the next lines one at a time, each to a fresh process
+        j = 0
+        while j < len(rest) and j < 2000:
+            try:
+                q = subprocess.run([binary, *extra_args], input=rest[j] + "\n", stdout=subprocess.PIPE, stderr=subprocess.PIPE, text=True,
+                                   env=ENV, timeout=300)
+                o1, rc1 = q.stdout.split("\n"), q.returncode
+            except subprocess.TimeoutExpired:
+                o1, rc1 = [], -9
+            if o1 and o1[-1] == "":
+                o1.pop()
+            if rc1 == 0 and len(o1) == 1:
+                res.append(o1[0]); j += 1
+                continue
+            rc = rc1
+            break
+        if j >= len(rest) or j >= 2000:
+            # no single line reproduces the death (it depends on what the process did before): blame the first line that
+            # was not answered, as a process-level failure, and go on after it
+            res = res[:len(res) - j]
+            j = 0
         res.append(f"crash rc={rc}")
-        rest = rest[k + 1:]
+        rest = rest[j + 1:]
         crashes += 1
         if crashes >= max_crashes:
             res += ["crash-skipped"] * len(rest)
